@@ -730,12 +730,28 @@ func (ts *Terms) loadAlloc(a *ssa.Alloc, fld *ssa.FieldAddr, fr *Frame, depth in
 				name := fieldNameShort(fa.X.Type(), fa.Field)
 				for _, r2 := range *fa.Referrers() {
 					if st, ok := r2.(*ssa.Store); ok && st.Addr == fa {
+						if at != nil && at.Parent() == a.Parent() && !instrReaches(st, at) {
+							continue // assigned after the value is taken
+						}
 						if fields[name] == nil {
 							fields[name] = map[string]*Term{}
 							order = append(order, name)
 						}
 						t := ts.of(st.Val, fr, depth+1)
 						fields[name][t.String()] = t
+						// assigned on some paths only (s := T{…}; if c { s.flag = v }): the zero
+						// value the local started with is the other alternative
+						if at != nil && at.Parent() == a.Parent() && !instrDominates(st, at) {
+							dominated := false
+							for _, r3 := range *fa.Referrers() {
+								if s3, ok := r3.(*ssa.Store); ok && s3 != st && s3.Addr == fa && instrDominates(s3, at) {
+									dominated = true
+								}
+							}
+							if z := zeroTermOf(fieldTypeOf(fa.X.Type(), fa.Field)); z != nil && !dominated {
+								fields[name][z.String()] = z
+							}
+						}
 					}
 				}
 				// a nested composite literal initialised in place (T{inner: U{…}})
@@ -854,9 +870,10 @@ func (ts *Terms) loadAlloc(a *ssa.Alloc, fld *ssa.FieldAddr, fr *Frame, depth in
 		if depth < 30 && frameDepth(fr) < 12 && at != nil && at.Parent() == a.Parent() {
 			for _, r := range *a.Referrers() {
 				c, ok := r.(*ssa.Call)
-				if !ok || c.Common().IsInvoke() || !instrDominates(wholeSt[0], c) || !instrDominates(c, at) {
+				if !ok || c.Common().IsInvoke() || !instrDominates(wholeSt[0], c) || !instrReaches(c, at) {
 					continue
 				}
+				callAlways := instrDominates(c, at)
 				g := c.Common().StaticCallee()
 				if g == nil || g.Blocks == nil || !isIrismodFunc(g) || onChain(fr, g) {
 					continue
@@ -884,7 +901,7 @@ func (ts *Terms) loadAlloc(a *ssa.Alloc, fld *ssa.FieldAddr, fr *Frame, depth in
 							if !ok || st.Addr != ssa.Value(fa) {
 								continue
 							}
-							definite := true
+							definite := callAlways
 							for _, ret := range returnsOf(g) {
 								if succeeded && isFailureReturn(ret) {
 									continue
@@ -2407,4 +2424,24 @@ func (ts *Terms) calleeFilledField(a *ssa.Alloc, f int, fr *Frame, depth int, at
 		return nil
 	}
 	return phiOf(m)
+}
+
+// zeroTermOf: the zero value of a basic type as a term; nil for other types.
+func zeroTermOf(ft types.Type) *Term {
+	if ft == nil {
+		return nil
+	}
+	b, ok := ft.Underlying().(*types.Basic)
+	if !ok {
+		return nil
+	}
+	switch {
+	case b.Info()&types.IsBoolean != 0:
+		return mk("const", "false")
+	case b.Info()&types.IsInteger != 0:
+		return mk("const", "0")
+	case b.Info()&types.IsString != 0:
+		return mk("const", `""`)
+	}
+	return nil
 }
